@@ -133,7 +133,7 @@ def check(chk):
     # the rotate-or-end decision is evaluated after the turn has ended (requests during the end events count)
     ept = [n for n, c in cfg.calls_named("_end_player_turn")]
     dec_if = [x for x in ast.walk(run.node) if isinstance(x, ast.If) and any(
-        isinstance(y, ast.Assign) and src(y.targets[0]) == "self.ending" and src(y.value) == "True" for y in x.body)]
+        isinstance(y, ast.Assign) and src(y.targets[0]) == "self.ending" and src(y.value) == "True" for y in x.body + x.orelse)]
     if not ept:
         chk.missing("DOM-13", "the game loop ends the player's turn (_end_player_turn)", run)
     if not dec_if:
@@ -166,6 +166,19 @@ def check(chk):
                                          and src(n.ast.value) == "True")]
     ok = bool(rot) and bool(endset) and all(cfg.dominates(ept[0].id, x.id) for x in rot + endset)
     chk.ob("DOM-13", "rotate / end both happen after the turn ended", ok, run.where(), construct=run.ident, text="rotate after turn")
+    # polarity: the game is ended on the side where the condition holds, players rotate on the other
+    from sa.helpers import feasible_paths
+    if dec_t and endset and rot:
+        first_t = min(dec_t, key=lambda t: t.id)
+
+        def holds(fx):
+            return fx.get("self.slam_tilted") is True or (fx.get("self.player.ball >= self.balls_per_game") is True and
+                                                         fx.get(canon_eq("self.player.number", "self.num_players")) is True)
+        bad_end = [p_ for p_, fx in feasible_paths(cfg, first_t.id, [endset[0].id]) if not holds(fx)]
+        bad_rot = [p_ for p_, fx in feasible_paths(cfg, first_t.id, [rot[0].id]) if holds(fx)]
+        chk.ob("DOM-13", "the game ends exactly when the end condition holds and rotates exactly when it does not", not bad_end and not bad_rot,
+               run.where(), path=cfg.fmt_path((bad_end or bad_rot)[0], GM) if (bad_end or bad_rot) else None, construct=run.ident,
+               text="end/rotate polarity")
     r = repo.func(GM, G + "._rotate_players")
     rc = r.cfg()
     nxt = [n for n in rc.nodes_where(lambda n: n.kind == "stmt" and isinstance(n.ast, ast.Assign) and src(n.ast.targets[0]) == "self.player")]
@@ -454,6 +467,8 @@ def battery():
         M("player added on later ball", GM, "        if self.player and self.player.ball > 1:  # todo config setting\n            self.debug_log(\"Current ball is after Ball 1. Cannot add player.\")\n            return False\n", "", "DOM-14"),
         M("veto ignored", GM, "        if ev_result is False:\n            self.debug_log(\"Request to add player has been denied.\")\n            return False\n", "", "DOM-14"),
         M("machine.game kept after stop", GM, "        self.machine.game = None", "        pass", "PAIR-7", nth=1),
+        M("end decision inverted", GM, "            if self.slam_tilted or self.player.ball >= self.balls_per_game and self.player.number == self.num_players:\n                self.ending = True\n            else:\n                await self._rotate_players()", "            if self.slam_tilted or self.player.ball >= self.balls_per_game and self.player.number == self.num_players:\n                await self._rotate_players()\n            else:\n                self.ending = True", "DOM-13"),
+        M("twin: end decision with the branches swapped and the test negated", GM, "            if self.slam_tilted or self.player.ball >= self.balls_per_game and self.player.number == self.num_players:\n                self.ending = True\n            else:\n                await self._rotate_players()", "            if not (self.slam_tilted or self.player.ball >= self.balls_per_game and self.player.number == self.num_players):\n                await self._rotate_players()\n            else:\n                self.ending = True", None),
         M("balls in play carried over to the next game", GM, "        self._balls_in_play = 0\n        self._stopping_modes = []", "        self._stopping_modes = []", "RESET-1"),
         M("ending flag carried over", GM, "        self.ending = False\n        self.num_players = 0", "        self.num_players = 0", "RESET-1"),
         M("tilt flag reset after the game started", GM, "        self.slam_tilted = False\n        self.tilted = False\n", "        self.tilted = False\n", "RESET-1", nth=1, also=[(GM, "        await self._start_game()\n\n        # Game loop", "        await self._start_game()\n        self.slam_tilted = False\n\n        # Game loop")]),
